@@ -1,7 +1,8 @@
 package main
 
 // C19 — schema error reasons never contain the rejected value.
-// Real code exercised: VisitJSON (default and MultiErrors) on values whose every string leaf is a unique marker;
+// Real code exercised: VisitJSON (default and MultiErrors) and the exported typed entry points VisitJSONString / Array /
+// Object / Number / Boolean on values whose every string leaf is a unique marker;
 // the Reason of every SchemaError at every nesting level (Origin chains included) and the messages rendered with
 // details disabled / with a reason-only customizer are searched for markers, and the top-level reason texts are
 // compared with the model's rendered reason fragments. Through openapi3filter with WithCustomSchemaErrorFunc(reason only):
@@ -547,6 +548,24 @@ func runC19(c hx.Case) any {
 	}
 	add("customizer", e2)
 	add("customizer/multi", e2m)
+	// the exported typed entry points (they start below enum / composition keywords, with default settings): their
+	// reasons are searched like the others, their texts with details disabled (below)
+	typedEntry := func() error {
+		switch x := v.(type) {
+		case string:
+			return s.VisitJSONString(x)
+		case []any:
+			return s.VisitJSONArray(x)
+		case map[string]any:
+			return s.VisitJSONObject(x)
+		case float64:
+			return s.VisitJSONNumber(x)
+		case bool:
+			return s.VisitJSONBoolean(x)
+		}
+		return nil
+	}
+	allReasons(typedEntry(), &reasons, 0)
 	paths := 0
 	// a value the schema accepts produces no schema error on any path (the filter adds only the request/response reading)
 	// (a Go-typed spelling reaches the filter only as the JSON text of the plain value — a body decoder must return
@@ -606,6 +625,7 @@ func runC19(c hx.Case) any {
 			openapi3.SchemaErrorDetailsDisabled = true
 			add("details-disabled/default", s.VisitJSON(v))
 			add("details-disabled/multi", s.VisitJSON(v, openapi3.MultiErrors()))
+			add("details-disabled/typed-entry", typedEntry())
 		}()
 	}
 	leaks := []any{}
